@@ -19,6 +19,8 @@ prop(
                "dimensions). Decoder-driven values only reach what the decoder accepts; field contents are biased "
                "towards small lengths.",
     shards={"quick": 8, "thorough": 16},
+    # thorough: ~4000 of the same round trips interpreted by Miri (encoder and decoder paths of every type)
+    instrument={"thorough": [{"tool": "miri", "scale": 0.0002, "shards": 16, "timeout": 2400}]},
 )
 
 prop(
